@@ -1,6 +1,6 @@
 SPECIFICATION Spec
 CONSTANTS
   Keys = {"a", "b"}
-  LeafSel = "std"
+  LeafSel = "small"
   Export = FALSE
 INVARIANTS MutantShallow
